@@ -11,9 +11,10 @@ type c02Case struct {
 	Mode    string `json:"mode"`              // chain | ternary | breakif | continueif
 	Classes []int  `json:"classes,omitempty"` // per condition: 0 falsy, 1 truthy, 2 failing
 	HasElse bool   `json:"has_else,omitempty"`
-	Rep     int    `json:"rep"`     // rotation of the class representatives
-	VarMask int    `json:"varmask"` // which conditions are data-supplied variables (bit i)
-	Place   []int  `json:"place"`   // nesting: 0 top, 1 in @each body, 2 in @if branch, 3 in @elseif branch, 4 in @else branch
+	Rep     int    `json:"rep"`             // rotation of the class representatives
+	VarMask int    `json:"varmask"`         // which conditions are data-supplied variables (bit i)
+	Paren   bool   `json:"paren,omitempty"` // branch bodies and the text after the construct start with "("
+	Place   []int  `json:"place"`           // nesting: 0 top, 1 in @each body, 2 in @if branch, 3 in @elseif branch, 4 in @else branch
 }
 
 type c02Rep struct {
@@ -52,17 +53,23 @@ func c02Build(cs c02Case) ([]*Node, map[string]Val) {
 		return r.e
 	}
 	var construct []*Node
+	mark := func(s string) string {
+		if cs.Paren {
+			return "(" + s + ")"
+		}
+		return s
+	}
 	switch cs.Mode {
 	case "chain":
-		n := &Node{K: "if", E: cond(0, cs.Classes[0]), Body: []*Node{nText("B0")}}
+		n := &Node{K: "if", E: cond(0, cs.Classes[0]), Body: []*Node{nText(mark("B0"))}}
 		for i := 1; i < len(cs.Classes); i++ {
-			n.ElseIfs = append(n.ElseIfs, ElseIf{Cond: cond(i, cs.Classes[i]), Body: []*Node{nText(fmt.Sprintf("B%d", i))}})
+			n.ElseIfs = append(n.ElseIfs, ElseIf{Cond: cond(i, cs.Classes[i]), Body: []*Node{nText(mark(fmt.Sprintf("B%d", i)))}})
 		}
 		if cs.HasElse {
 			n.HasElse = true
-			n.Else = []*Node{nText("BE")}
+			n.Else = []*Node{nText(mark("BE"))}
 		}
-		construct = []*Node{nText("P"), n, nText("Q")}
+		construct = []*Node{nText("P"), n, nText(mark("Q"))}
 	case "ternary":
 		construct = []*Node{nText("P"), nPrint(&Expr{Op: "?:", Kids: []*Expr{cond(0, cs.Classes[0]), eLit(vStr("T")), eLit(vStr("F"))}}), nText("Q")}
 	case "breakif", "continueif":
@@ -197,6 +204,11 @@ func c02Run(c *Ctx) {
 						for _, pl := range places {
 							if !do(c02Case{Mode: "chain", Classes: classes, HasElse: hasElse, Rep: rep, VarMask: vm, Place: pl}, nontriv) {
 								return false
+							}
+							if rep < 2 && vm == 0 {
+								if !do(c02Case{Mode: "chain", Classes: classes, HasElse: hasElse, Rep: rep, VarMask: vm, Place: pl, Paren: true}, true) {
+									return false
+								}
 							}
 						}
 					}
